@@ -52,6 +52,15 @@ def handle : List String → Option String
     let ((dim, tr), _) ← (do let d ← P.nat; let t ← P.list P.nat; pure (d, t)).run rest
     pure (match kindOf dim tr with
       | .ok .scalar => "scalar" | .ok .vector => "vector" | .ok .tensor => "tensor" | .error e => e.show)
+  | ["c2fshapeok", _] => none
+  | "c2fshapeok" :: rest => do
+    let ((dim, tr), _) ← (do let d ← P.nat; let t ← P.list P.nat; pure (d, t)).run rest
+    pure (match kindOf dim tr with | .ok _ => "accepted" | .error e => e.show)
+  | ["massguard", mode, lump] => do
+    let m := if mode = "cells" then MassMode.cells else if mode = "faces" then MassMode.faces else MassMode.other
+    pure (match massGuard m (lump = "1") with | .ok _ => "ok" | .error e => e.show)
+  | ["c2fmode", name] => do
+    pure (match avgModeOf (name = "arithmetic") (name = "harmonic") with | .ok _ => "ok" | .error e => e.show)
   | "tang" :: rest => do
     let ((shape, u), _) ← (do let s ← P.list P.nat; let u ← P.list P.rat; pure (s, u)).run rest
     pure (sep ((List.range (shape.length - 1)).map fun i => showRats ((List.range (numFaces shape)).map (tang shape (fn u) i))))
